@@ -108,7 +108,7 @@ Proof. intros H. unfold tau. repeat (apply in_or_app; right). exact H. Qed.
 
 Lemma goroutine_enabled c s : gor_ready c s.
 Proof.
-  unfold gor_ready. destruct s as [p rmc cd sd rc hu stl phu ad].
+  unfold gor_ready. destruct s as [p rmc cd sd rc hu stl phu ad xs rr].
   destruct p as [ | | |n|l| | | |b|m|m| | | | | ]; cbn [s_pc]; auto;
     try (cbn; intros; discriminate).
   - (* PLoop *)
@@ -336,7 +336,7 @@ Lemma Rhist_vis c p e p' h :
   In p' (vpc c p e) -> Rhist p h -> exists h', hstep h e = Some h' /\ Rhist p' h'.
 Proof.
   unfold hstep. intros H HR. eexists; split; [reflexivity|].
-  destruct e as [ |ok| |ok| |ok| | |ok|ok| |ok|ok|r| |n| | | | ]; cbn in *;
+  destruct e as [ |ok| |ok| |ok| | |ok|ok| |ok|ok|r| |n| | | | |k|k ok| | ]; cbn in *;
     inv_in H; subst; cbn in *; auto.
   all: try (destruct p; cbn in *; auto; fail).
   - destruct ok; cbn; auto.
@@ -485,11 +485,11 @@ Lemma Rcause_tau c s s' x :
 Proof.
   destruct x as [rcn rm]. intros Hin (W & Hrm & Hn).
   destruct (wf_tau _ _ _ Hin W) as [W' _].
-  destruct s as [p rmc cd sd rc hu stl phu ad].
+  destruct s as [p rmc cd sd rc hu stl phu ad xs rr].
   unfold Rcause, need in *. unfold tau, managed in Hin.
-  cbn [s_pc s_rmc s_cdone s_sdone s_rc s_hu s_stale s_phu s_add] in *.
+  cbn [s_pc s_rmc s_cdone s_sdone s_rc s_hu s_stale s_phu s_add s_x s_rr] in *.
   destruct (c_timeout c) eqn:Et;
-  inv_in Hin; subst; cbn [s_pc s_rmc s_cdone s_sdone s_rc s_hu s_stale s_phu s_add] in *;
+  inv_in Hin; subst; cbn [s_pc s_rmc s_cdone s_sdone s_rc s_hu s_stale s_phu s_add s_x s_rr] in *;
     repeat split; auto; try discriminate.
   all: try (destruct sd, cd; cbn in *; try discriminate; try lia; fail).
   all: try (destruct p; cbn in *; try discriminate; destruct sd, cd; cbn in *; try discriminate; try lia; fail).
@@ -507,13 +507,13 @@ Proof.
   destruct x as [rcn rm].
   intros Hin (W & Hrm & Hn).
   destruct (wf_vis _ _ _ _ Hin W) as [W' _].
-  destruct s as [p rmc cd sd rc hu stl phu ad].
+  destruct s as [p rmc cd sd rc hu stl phu ad xs rr].
   unfold Rcause, need in *. unfold vis, managed in Hin. unfold wfb, managed, add_none, rc_none in W.
-  cbn [s_pc s_rmc s_cdone s_sdone s_rc s_hu s_stale s_phu s_add] in *.
+  cbn [s_pc s_rmc s_cdone s_sdone s_rc s_hu s_stale s_phu s_add s_x s_rr] in *.
   destruct (c_timeout c) eqn:Et;
-  destruct e as [ |ok| |ok| |ok| | |ok|ok| |ok|ok|r| |n| | | | ];
+  destruct e as [ |ok| |ok| |ok| | |ok|ok| |ok|ok|r| |n| | | | |k|k ok| | ];
     cbn [cstep];
-    inv_in Hin; subst; cbn [s_pc s_rmc s_cdone s_sdone s_rc s_hu s_stale s_phu s_add] in *;
+    inv_in Hin; subst; cbn [s_pc s_rmc s_cdone s_sdone s_rc s_hu s_stale s_phu s_add s_x s_rr] in *;
     try (eexists; split; [reflexivity|]); cbn [orb];
     try (repeat split; auto; try discriminate;
          repeat match goal with
